@@ -3,10 +3,15 @@ coq/Iso/Model.v (verified isomorphism oracle + specification checker) and
 rdflib/compare.py, Graph.skolemize/de_skolemize, BNode.skolemize, URIRef.de_skolemize."""
 from __future__ import annotations
 
+import atexit
 import itertools
+import json
+import os
+import subprocess
+import sys
 import warnings
 
-from .core import Suite, cN, cbool, clist, cstr, ctuple
+from .core import REPO, VERIF, Suite, cN, cbool, clist, cstr, ctuple
 from .terms import rdflib, tkey  # noqa: F401  (import_rdflib side effect: rdflib comes from RV_REPO)
 
 warnings.filterwarnings("ignore", category=DeprecationWarning)
@@ -160,6 +165,69 @@ def structures(rng):
     return k, [(i, P if i % 2 == 0 else Q, (i + 1) % n) for i in range(n)], n
 
 
+def blank_only(rng):
+    """random blank-only digraphs on 4-7 nodes and the shapes on which the unrepaired canonicaliser was label dependent
+    (finding FC14b, fixed): cycles with self-loops, unequal unions of cycles, looped stars, cycles with in-leaves"""
+    k = rng.choice(["functional", "random", "cycloops", "cycunion", "loopstars", "inleaves", "edited"])
+    n = rng.choice([4, 5, 6, 7])
+    if k == "functional":
+        return k, [(i, P, rng.randrange(n)) for i in range(n)], n
+    if k == "random":
+        m = rng.choice([n, n + 1, n + 2, n + 3])
+        return k, sorted({(rng.randrange(n), rng.choice([P, P, P, Q]), rng.randrange(n)) for _ in range(m)}), n
+    if k == "cycloops":
+        c = rng.choice([2, 3, 4, 4, 5, 6])
+        loops = rng.choice([1, 2, 2, 3])
+        while c + loops > 8:
+            loops -= 1
+        es = cyc(list(range(c))) + [(c + j, P, c + j) for j in range(loops)]
+        if rng.random() < 0.3 and c + loops <= 6:
+            es += cyc(list(range(c + loops, c + loops + 2)))
+            return k, es, c + loops + 2
+        return k, es, c + loops
+    if k == "cycunion":
+        parts, start = [], 0
+        for m in rng.choice([[2, 2], [2, 3], [2, 4], [3, 4], [2, 2, 3], [3, 5], [2, 2, 4], [2, 3, 3], [2, 6], [1, 2, 2], [1, 1, 4],
+                             [1, 3, 3], [4, 4], [2, 2, 2, 2]]):
+            parts += cyc(list(range(start, start + m))) if m > 1 else [(start, P, start)]
+            start += m
+        return k, parts, start
+    if k == "loopstars":
+        c = rng.choice([2, 2, 3])
+        leaves = rng.choice([1, 2, 2, 3])
+        while c * (1 + leaves) > 8:
+            leaves -= 1
+        es, nn = [], 0
+        for _ in range(c):
+            ctr = nn
+            es.append((ctr, P, ctr))
+            for j in range(leaves):
+                es.append((ctr, P, ctr + 1 + j) if rng.random() < 0.8 else (ctr + 1 + j, P, ctr))
+            nn += 1 + leaves
+        return k, es, nn
+    if k == "inleaves":
+        c = rng.choice([2, 2, 3])
+        leaves = rng.choice([1, 2])
+        es = cyc(list(range(c)))
+        nn = c
+        for i in range(c):
+            for _ in range(leaves):
+                es.append((nn, P, i))
+                nn += 1
+        return k, es, nn
+    # a symmetric structure after a few arbitrary edits (self-loops allowed)
+    _, es, n = structures(rng)
+    es = list(es)
+    for _ in range(rng.choice([1, 2, 3])):
+        r = rng.random()
+        t = (rng.randrange(n), P, rng.randrange(n))
+        if r < 0.6 and t not in es:
+            es.append(t)
+        elif es:
+            es.remove(rng.choice(es))
+    return k, es, n
+
+
 TWINS = [  # different structures with equal degree sequences
     (cyc(list(range(6))), cyc([0, 1, 2]) + cyc([3, 4, 5]), 6),
     (cyc(list(range(8))), cyc([0, 1, 2, 3]) + cyc([4, 5, 6, 7]), 8),
@@ -243,6 +311,62 @@ def nblanks(g):
     return len({x[1] for t in g for x in t if x[0] == 1})
 
 
+# ------------------------------------------------------------------ other PYTHONHASHSEEDs
+# ./check pins PYTHONHASHSEED=0.  The order in which sets of blank nodes are walked was part of the repaired defect
+# FC14b, so compare.isomorphic is also evaluated in worker processes started with other hash seeds
+# (`python -m harness.c14 --worker`, one JSON case per line in, one JSON verdict per line out).
+THOROUGH = "thorough" in sys.argv or os.environ.get("VERIF_TIER") == "thorough"
+ALT_SEEDS = [3, 5] if THOROUGH else [3]
+_workers: dict = {}
+
+
+def _worker(seed):
+    w = _workers.get(seed)
+    if w is None or w.poll() is not None:
+        env = dict(os.environ, PYTHONHASHSEED=str(seed), RV_REPO=REPO)
+        w = subprocess.Popen([sys.executable, "-m", "harness.c14", "--worker"], cwd=VERIF, env=env, text=True,
+                             stdin=subprocess.PIPE, stdout=subprocess.PIPE, stderr=subprocess.DEVNULL, bufsize=1)
+        _workers[seed] = w
+    return w
+
+
+def _kill_workers():
+    for w in _workers.values():
+        try:
+            w.kill()
+        except Exception:  # noqa: BLE001
+            pass
+    _workers.clear()
+
+
+atexit.register(_kill_workers)
+
+
+def alt_verdict(seed, case):
+    """isomorphic(g1, g2) computed under another hash seed; None = error in the worker"""
+    try:
+        w = _worker(seed)
+        w.stdin.write(json.dumps({"g1": case["g1"], "g2": case["g2"]}) + "\n")
+        w.stdin.flush()
+        line = w.stdout.readline()
+        return json.loads(line)["iso"] if line else None
+    except (OSError, ValueError, KeyError):
+        _kill_workers()
+        return None
+
+
+def worker_main():
+    assert os.environ.get("PYTHONHASHSEED") not in (None, "0", "random")
+    for line in sys.stdin:
+        c = json.loads(line)
+        try:
+            r = bool(isomorphic(build(c["g1"]), build(c["g2"])))
+        except Exception:  # noqa: BLE001
+            r = None
+        sys.stdout.write(json.dumps({"iso": r}) + "\n")
+        sys.stdout.flush()
+
+
 class C14(Suite):
     name = "iso"
     imports = "From RV Require Import Iso.Model."
@@ -260,9 +384,19 @@ class C14(Suite):
         r = rng.random()
         if r < 0.03:
             return self.gen_leak(rng)
-        if r < 0.15:
+        if r < 0.13:
             return self.gen_random(rng)
-        if r < 0.30:
+        if r < 0.43:
+            fam, es, n = blank_only(rng)
+            e1 = decorate(rng, es, n) if rng.random() < 0.25 else list(es)
+            e2 = perturb(rng, e1, n) if rng.random() < 0.3 else e1
+            fam = "bo_" + fam + ("+perturbed" if e2 is not e1 else "")
+            pool1 = list(range(n))
+            rng.shuffle(pool1)
+            pool2 = list(range(20, 20 + n)) if rng.random() < 0.5 else list(range(n))
+            rng.shuffle(pool2)
+            return {"g1": realise(rng, e1, pool1), "g2": realise(rng, e2, pool2), "fam": fam}
+        if r < 0.55:
             e1, e2, n = rng.choice(TWINS)
             if rng.random() < 0.5:
                 e1, e2 = e2, e1
@@ -366,13 +500,17 @@ class C14(Suite):
             o_sk = sorted([back(x, in_labels) for x in t] for t in sk)
         except Exception:  # noqa: BLE001
             o_sk = ERR_GRAPH
-        err = None in (o_iso, o_toiso, o_caneq)
+        alts = [alt_verdict(k, case) for k in ALT_SEEDS]
+        err = None in (o_iso, o_toiso, o_caneq) or None in alts
         return {"iso": bool(o_iso), "toiso": bool(o_toiso), "caneq": bool(o_caneq), "error": err,
+                "alt1": bool(alts[0]), "alt2": bool(alts[-1]),
                 "cg1": graphs[0] if not err else ERR_GRAPH, "cg2": graphs[1], "both": graphs[2], "first": graphs[3],
                 "second": graphs[4], "sk": o_sk}
 
     def on_timeout(self, case):
-        return {"iso": False, "toiso": False, "caneq": False, "error": True, "timeout": True, "cg1": ERR_GRAPH,
+        _kill_workers()  # a worker may still be busy with this case
+        return {"iso": False, "toiso": False, "caneq": False, "alt1": False, "alt2": False, "error": True, "timeout": True,
+                "cg1": ERR_GRAPH,
                 "cg2": ERR_GRAPH, "both": ERR_GRAPH, "first": ERR_GRAPH, "second": ERR_GRAPH, "sk": ERR_GRAPH}
 
     # ------------------------------------------------------------ Coq text
@@ -380,8 +518,10 @@ class C14(Suite):
         return "{| c_g1 := " + c_graph(case["g1"]) + "; c_g2 := " + c_graph(case["g2"]) + " |}"
 
     def coq_obs(self, o):
-        return ("{| o_iso := %s; o_toiso := %s; o_caneq := %s; o_cg1 := %s; o_cg2 := %s; o_both := %s; o_first := %s; "
-                "o_second := %s; o_sk := %s |}" % (cbool(o["iso"]), cbool(o["toiso"]), cbool(o["caneq"]), c_graph(o["cg1"]),
+        return ("{| o_iso := %s; o_toiso := %s; o_caneq := %s; o_alt1 := %s; o_alt2 := %s; o_cg1 := %s; o_cg2 := %s; "
+                "o_both := %s; o_first := %s; "
+                "o_second := %s; o_sk := %s |}" % (cbool(o["iso"]), cbool(o["toiso"]), cbool(o["caneq"]),
+                                                  cbool(o["alt1"]), cbool(o["alt2"]), c_graph(o["cg1"]),
                                                   c_graph(o["cg2"]), c_graph(o["both"]), c_graph(o["first"]),
                                                   c_graph(o["second"]), c_graph(o["sk"])))
 
@@ -533,33 +673,28 @@ class C14History(Suite):
 
     # case = {"graphs": [graph...], "ops": [["add", i, triple] | ["rem", i, triple] | ["cmp", i, j]], "fam": str}
     def gen(self, rng, i):
-        # Every state of every object is a disjoint union of directed cycles of length >= 2 (optionally with
-        # attributes): the families on which rdflib's verdicts are stable.  Richer symmetric graphs with edits
-        # (self-loops, irregular re-wirings of cube/prism) run into finding FC14b (label-dependent verdicts).
-        n = rng.choice([4, 5, 6, 6, 7, 8, 8])
-        def cycles(n):
-            parts, start = [], 0
-            while start < n:
-                m = rng.choice([2, 3, 4, n]) if n - start >= 4 else n - start
-                m = min(m, n - start)
-                if n - start - m == 1:
-                    m += 1
-                parts += cyc(list(range(start, start + m)))
-                start += m
-            return parts
         r = rng.random()
-        if r < 0.4:
+        if r < 0.2:
+            e1, e2, n = rng.choice(TWINS)
+            e1, e2 = list(e1), list(e2)
+            if rng.random() < 0.5:
+                e1, e2 = e2, e1
+            fam = "twins"
+        elif r < 0.45:
+            n = rng.choice([4, 5, 6, 6, 7, 8, 8])
             e1 = cyc(list(range(n)))
-            k = n // 2
-            e2 = cyc(list(range(k))) + cyc(list(range(k, n))) if k >= 2 and n - k >= 2 else cycles(n)
+            k = rng.randrange(1, n)  # cut into a (k)-cycle and an (n-k)-cycle; a 1-cycle is a self-loop
+            e2 = (cyc(list(range(k))) if k > 1 else [(0, P, 0)]) + (cyc(list(range(k, n))) if n - k > 1 else [(n - 1, P, n - 1)])
             fam = "cycle"
+        elif r < 0.7:
+            fam, e1, n = blank_only(rng)
+            e1 = list(e1)
+            e2 = perturb(rng, e1, n) if rng.random() < 0.6 else e1
+            fam = "bo_" + fam
         else:
-            e1, e2 = cycles(n), cycles(n)
-            fam = "cycles"
-        if rng.random() < 0.3:
-            c = rng.choice([1, 5, 6, 9])
-            e1 = e1 + [(j, Q, ("c", c)) for j in range(n)]
-            e2 = e2 + [(j, Q, ("c", c)) for j in range(n)]
+            fam, e1, n = structures(rng)
+            e1 = decorate(rng, e1, n)
+            e2 = perturb(rng, e1, n)
         pools = []
         for k in range(3):
             pool = list(range(10 * k, 10 * k + n)) if rng.random() < 0.6 else list(range(n))
@@ -586,8 +721,7 @@ class C14History(Suite):
                     t2 = nxt.get(t1[2][1], t2)
                     t2 = nxt.get(t2[2][1], t2)
                 n1, n2 = [t1[0], t1[1], t2[2]], [t2[0], t2[1], t1[2]]
-                if (t1 != t2 and t1[1] == t2[1] and n1 not in g and n2 not in g and n1 != n2
-                        and n1[0] != n1[2] and n2[0] != n2[2]):
+                if t1 != t2 and t1[1] == t2[1] and n1 not in g and n2 not in g and n1 != n2:
                     for t in (t1, t2):
                         g.remove(t)
                         ops.append(["rem", k, t])
@@ -604,12 +738,12 @@ class C14History(Suite):
             r2 = rng.random()
             if r2 < 0.7:
                 rewire(k)
-            elif r2 < 0.85 and [t for t in cur[k] if t[2][0] == 0]:
-                t = rng.choice([t for t in cur[k] if t[2][0] == 0])  # drop an attribute
+            elif r2 < 0.85 and cur[k]:
+                t = rng.choice(cur[k])
                 cur[k].remove(t)
                 ops.append(["rem", k, t])
-            else:
-                t = [B(rng.choice(pools[k])), C(Q), rng.choice([C(1), C(5), C(6)])]
+            else:  # an edge between blank nodes (self-loops included) or an attribute
+                t = [B(rng.choice(pools[k])), C(rng.choice([P, P, Q])), rng.choice([B(rng.choice(pools[k])), B(rng.choice(pools[k])), C(1), C(5)])]
                 if t not in cur[k]:
                     cur[k].append(t)
                 ops.append(["add", k, t])  # possibly a re-add of a present triple
@@ -684,3 +818,6 @@ class C14History(Suite):
 
 
 SUITES = [C14(), C14Skolem(), C14History()]
+
+if __name__ == "__main__" and "--worker" in sys.argv:
+    worker_main()
